@@ -328,6 +328,18 @@ def run_harness(exe, lines, timeout=600):
                 dump.setdefault('disp_raw', {})[int(t[1])] = raw
         elif t[0] == 'K':
             dump['ends'][int(t[1])] = ((float(t[2]), float(t[3])), (float(t[4]), float(t[5])))
+        elif t[0] == 'N':
+            # hyperedge runs: junction id -> live flag, position(), recommendedPosition()
+            dump.setdefault('juncs', {})[int(t[1])] = {'live': t[2] == '1', 'pos': (float(t[3]), float(t[4])), 'rec': (float(t[5]), float(t[6]))}
+        elif t[0] == 'G':
+            # hyperedge runs: connector id -> its two ends, ('J', jid) or ('P', x, y)
+            i, ends = 2, []
+            for _ in range(2):
+                if t[i] == 'J':
+                    ends.append(('J', int(t[i + 1]))); i += 2
+                else:
+                    ends.append(('P', float(t[i + 1]), float(t[i + 2]))); i += 3
+            dump.setdefault('hends', {})[int(t[1])] = ends
     return runs, rc, err
 
 
@@ -359,6 +371,11 @@ def tok_shapes(S):
 
 def q_chk(shapes, s, d, route):
     return 'CHK %s %s %s %s' % (tok_shapes(shapes), tok_pt(s), tok_pt(d), tok_poly(route))
+
+
+def q_clr(shapes, route):
+    """segs_clear over ALL shapes (no containment exemption): hyperedge scenes"""
+    return 'CLR %s %s' % (tok_shapes(shapes), tok_poly(route))
 
 
 def q_deg(P, a, b):
@@ -439,3 +456,404 @@ def orth_cost(pts, pen):
 
 def is_orthogonal(pts):
     return all(pts[i][0] == pts[i + 1][0] or pts[i][1] == pts[i + 1][1] for i in range(len(pts) - 1))
+
+
+# ------------------------------------------------------------------------------------------ "contains" history family (C03 / C06)
+# Histories in which a free connector endpoint lies STRICTLY INSIDE a shape (Router::contains lists the shape for that endpoint
+# and ignores it as a blocker), the shape is then moved / resized / deleted away from the endpoint (or another shape comes to
+# contain it), and finally something makes the router compute new visibility edges for that endpoint.  Property C03 exempts a
+# shape only while it contains an endpoint in the CURRENT scene; C06 quantifies over all legal histories.
+# Ops are the tuples of checks/c06.py:  ('A', id, poly) ('M', id, dx, dy) ('T', id, poly) ('D', id) ('C', cid, s, d)
+# ('E', cid, which, p) ('P',)
+def hist_op_str(o):
+    if o[0] == 'A' or o[0] == 'T':
+        return '%s %d %s' % (o[0], o[1], fmt_poly(o[2]))
+    if o[0] == 'M':
+        return 'M %d %d %d' % (o[1], o[2], o[3])
+    if o[0] == 'D':
+        return 'D %d' % o[1]
+    if o[0] == 'C':
+        return 'C %d %d %d %d %d' % (o[1], o[2][0], o[2][1], o[3][0], o[3][1])
+    if o[0] == 'E':
+        return 'E %d %d %d %d' % (o[1], o[2], o[3][0], o[3][1])
+    return 'P'
+
+
+def hist_apply(shapes, conns, o):
+    """sequential semantics of one op (Python twin of ActionQueueModel.seq_step); returns new dicts"""
+    shapes, conns = dict(shapes), dict(conns)
+    if o[0] in ('A', 'T'):
+        shapes[o[1]] = list(o[2])
+    elif o[0] == 'M':
+        shapes[o[1]] = [(x + o[2], y + o[3]) for x, y in shapes[o[1]]]
+    elif o[0] == 'D':
+        del shapes[o[1]]
+    elif o[0] == 'C':
+        conns[o[1]] = (o[2], o[3])
+    elif o[0] == 'E':
+        s, d = conns[o[1]]
+        conns[o[1]] = (s, o[3]) if o[2] else (o[3], d)
+    return shapes, conns
+
+
+def point_place(polys, p):
+    """'free' (outside every closed bounding box), 'inside' (strictly inside some shape) or 'edge' (anything else: on a
+    boundary, or inside the bounding box but not strictly inside the shape)"""
+    if any(inside_strict(P, p) for P in polys):
+        return 'inside'
+    return 'edge' if in_any_bbox(polys, p) else 'free'
+
+
+def contains_scene_valid(shapes, conns, generic=True):
+    """boxes separated by >= 1; every endpoint free or strictly inside a shape; distinct endpoints; no degenerate chord"""
+    polys = list(shapes.values())
+    bs = [bbox(P) for P in polys]
+    for i in range(len(bs)):
+        for j in range(i + 1, len(bs)):
+            if not box_sep(bs[i], bs[j], 1):
+                return False
+    pts = []
+    for (s, d) in conns.values():
+        if s == d or point_place(polys, s) == 'edge' or point_place(polys, d) == 'edge':
+            return False
+        pts += [s, d]
+    if generic and scene_has_degenerate_chord(polys, sorted(set(pts))):
+        return False
+    return True
+
+
+def rect_poly(b):
+    return [(b[2], b[1]), (b[2], b[3]), (b[0], b[3]), (b[0], b[1])]
+
+
+def gen_contains_history(rng, rect_only=False, R=40):
+    """-> (ops, tags): a directed history of the family above; tags = the variant choices (evidence histogram)"""
+    ops, shapes, conns, tags = [], {}, {}, []
+
+    def try_op(o):
+        s2, c2 = hist_apply(shapes, conns, o)
+        if contains_scene_valid(s2, c2):
+            ops.append(o)
+            shapes.clear(); shapes.update(s2); conns.clear(); conns.update(c2)
+            return True
+        return False
+
+    def P():
+        if ops and ops[-1] != ('P',):
+            ops.append(('P',))
+
+    def new_box(maxw=11, minw=4):
+        x = rng.range(0, R - 1); y = rng.range(0, R - 1)
+        return (x, y, x + rng.range(minw, maxw), y + rng.range(minw, maxw))
+
+    def mkpoly(b):
+        return rect_poly(b) if rect_only or rng.chance(3, 5) else poly_in_box(rng, b)
+
+    def inner_point(Pg):
+        b = bbox(Pg)
+        c = [(x, y) for x in range(b[0] + 1, b[2]) for y in range(b[1] + 1, b[3]) if inside_strict(Pg, (x, y))]
+        return rng.choice(c) if c else None
+
+    # --- transaction 1: shape S (id 1) with the source endpoint of connector 100 strictly inside it; 0-2 other shapes
+    for _ in range(60):
+        Sg = mkpoly(new_box())
+        p = inner_point(Sg)
+        if p is not None and try_op(('A', 1, Sg)):
+            break
+    else:
+        return None, None
+    nid = 2
+    for _ in range(rng.range(0, 2)):
+        for _ in range(20):
+            if try_op(('A', nid, mkpoly(new_box(9, 2)))):
+                nid += 1
+                break
+    q = None
+    qmode = rng.below(5)
+    for _ in range(60):
+        polys = list(shapes.values())
+        if qmode == 0 and len(shapes) > 1:
+            q = inner_point(shapes[rng.choice([i for i in sorted(shapes) if i != 1])])      # both ends inside (different) shapes
+        elif qmode == 1:
+            q = inner_point(shapes[1])                                                       # both ends inside S
+        else:
+            qmode = 2
+            q = free_point(rng, polys, R, use_bbox=True)
+        if q is not None and q != p and try_op(('C', 100, p, q) if rng.chance(3, 4) else ('C', 100, q, p)):
+            break
+        qmode = 2
+    else:
+        return None, None
+    inside_end = 0 if conns[100][0] == p else 1
+    tags.append('q_' + ['in_other', 'in_same', 'free', 'free', 'free'][qmode])
+    if rng.chance(1, 3):
+        for _ in range(20):
+            polys = list(shapes.values())
+            a = free_point(rng, polys, R, use_bbox=True); b = free_point(rng, polys, R, avoid=(a,), use_bbox=True)
+            if try_op(('C', 101, a, b)):
+                break
+    P()
+
+    def cur_p():
+        return conns[100][inside_end]
+
+    def cur_q():
+        return conns[100][1 - inside_end]
+
+    def move_between(i):
+        """move shape i so that it straddles the segment from the inside endpoint towards the other endpoint (not containing either)"""
+        b = bbox(shapes[i]); pp, qq = cur_p(), cur_q()
+        for _ in range(40):
+            t_num = rng.range(2, 8)
+            cx = pp[0] + (qq[0] - pp[0]) * t_num // 10 + rng.range(-1, 1); cy = pp[1] + (qq[1] - pp[1]) * t_num // 10 + rng.range(-1, 1)
+            dx = cx - (b[0] + b[2]) // 2; dy = cy - (b[1] + b[3]) // 2
+            if (dx or dy) and not inside_closed(rect_poly((b[0] + dx, b[1] + dy, b[2] + dx, b[3] + dy)), pp) and try_op(('M', i, dx, dy)):
+                return True
+        return False
+
+    def move_random(i, away_from=None):
+        for _ in range(40):
+            dx, dy = rng.range(-18, 18), rng.range(-18, 18)
+            if away_from is not None:
+                b = bbox(shapes[i])
+                if inside_closed(rect_poly((b[0] + dx, b[1] + dy, b[2] + dx, b[3] + dy)), away_from):
+                    continue
+            if (dx or dy) and try_op(('M', i, dx, dy)):
+                return True
+        return False
+
+    def resize_away(i):
+        """new polygon with the same vertex count (Obstacle::setNewPoly asserts it) that no longer contains the inside endpoint"""
+        k = len(shapes[i]); pp = cur_p()
+        for _ in range(60):
+            if rng.chance(1, 2):
+                # shrink: a sub-box of the current box that leaves the endpoint out
+                b = bbox(shapes[i])
+                x0 = rng.range(b[0], b[2] - 2); x1 = rng.range(x0 + 2, b[2]); y0 = rng.range(b[1], b[3] - 2); y1 = rng.range(y0 + 2, b[3])
+                nb = (x0, y0, x1, y1)
+            else:
+                nb = new_box()
+            Pn = rect_poly(nb) if k == 4 and (rect_only or rng.chance(1, 2)) else poly_in_box(rng, nb)
+            if rect_only and Pn != rect_poly(nb):
+                continue
+            if len(Pn) == k and not inside_closed(rect_poly(nb), pp) and try_op(('T', i, Pn)):
+                return True
+        return False
+
+    def cover(i=None):
+        """shape i (or a new shape) comes to contain the inside endpoint strictly"""
+        pp = cur_p()
+        for _ in range(60):
+            if i is None:
+                w, h = rng.range(4, 10), rng.range(4, 10)
+                x0 = pp[0] - rng.range(1, w - 1); y0 = pp[1] - rng.range(1, h - 1)
+                Pn = mkpoly((x0, y0, x0 + w, y0 + h))
+                if inside_strict(Pn, pp) and try_op(('A', nid, Pn)):
+                    return True
+            else:
+                b = bbox(shapes[i]); g = inner_point(shapes[i])
+                if g is None:
+                    return False
+                dx, dy = pp[0] - g[0], pp[1] - g[1]
+                if (dx or dy) and try_op(('M', i, dx, dy)):
+                    return True
+        return False
+
+    # --- transaction 2: S leaves the endpoint
+    away = rng.below(10)
+    ok = False
+    if away < 5:
+        ok = move_between(1); tags.append('away_move_between')
+    elif away < 6:
+        ok = move_random(1, away_from=cur_p()); tags.append('away_move_random')
+    elif away < 8:
+        ok = resize_away(1); tags.append('away_resize')
+    else:
+        ok = try_op(('D', 1)); tags.append('away_delete')
+    if not ok:
+        return None, None
+    P()
+    # --- optional middle transactions
+    for _ in range(rng.range(0, 2)):
+        mid = rng.below(6)
+        done = False
+        if mid == 0 and 1 in shapes:
+            done = cover(1)                                   # S moved back over the endpoint ...
+            if done:
+                tags.append('mid_back_over')
+                P()
+                (move_between(1) or move_random(1, away_from=cur_p()))       # ... and away again
+        elif mid == 1:
+            others = [i for i in sorted(shapes) if i != 1]
+            if others:
+                done = cover(rng.choice(others))              # a different shape moved onto the endpoint
+                if done:
+                    tags.append('mid_other_onto')
+        elif mid == 2 and len(shapes) < 6:
+            done = cover(None)                                # a new shape added around the endpoint
+            if done:
+                nid += 1
+                tags.append('mid_new_onto')
+        elif mid == 3 and 1 in shapes:
+            done = move_between(1)
+            if done:
+                tags.append('mid_move_between_again')
+        elif mid == 4 and len(shapes) > 1:
+            cand = [i for i in sorted(shapes) if not inside_strict(shapes[i], cur_p())]
+            if cand:
+                done = try_op(('D', rng.choice(cand)))
+                if done:
+                    tags.append('mid_delete')
+        if done:
+            P()
+    # --- trigger: something that makes the router compute new visibility edges for the (former) inside endpoint
+    for _ in range(rng.range(1, 2)):
+        trg = rng.below(10)
+        done = False
+        if trg < 4:
+            qq = cur_q()
+            for _ in range(30):
+                nq = (qq[0] + rng.range(-3, 3), qq[1] + rng.range(-3, 3)) if rng.chance(2, 3) else free_point(rng, list(shapes.values()), R, use_bbox=True)
+                if nq != qq and try_op(('E', 100, 1 - inside_end, nq)):
+                    done = True; tags.append('trigger_other_end')
+                    break
+        elif trg < 6:
+            pp = cur_p()
+            for _ in range(30):
+                np_ = (pp[0] + rng.range(-2, 2), pp[1] + rng.range(-2, 2))
+                if np_ != pp and try_op(('E', 100, inside_end, np_)):
+                    done = True; tags.append('trigger_same_end')
+                    break
+        elif trg < 8 and shapes:
+            cand = [i for i in sorted(shapes) if not inside_strict(shapes[i], cur_p())]
+            if cand:
+                done = move_random(rng.choice(cand), away_from=cur_p())
+                if done:
+                    tags.append('trigger_move_shape')
+        elif len(shapes) < 7:
+            for _ in range(30):
+                if try_op(('A', nid, mkpoly(new_box(8, 2)))):
+                    nid += 1; done = True; tags.append('trigger_add_shape')
+                    break
+        if done:
+            P()
+    P()
+    return ops, tags
+
+
+# ------------------------------------------------------------------------------------------ hyperedge scene family (C03)
+# A free JunctionRef with 3-5 orthogonal connectors to free terminal points, rectangular obstacles near the trunks.
+# scene = {'shapes': [poly..] (ids 1..), 'junction': (x, y), 'fixed': 0/1, 'terms': [(x, y)..], 'rev': [0/1..] (connector written
+#          terminal -> junction), 'opt': 0 none / 1 improveHyperedgeRoutesMovingJunctions / 2 ...MovingAddingAndDeletingJunctions,
+#          'pen', 'buf', 'nudge', 'kind'}
+SYMS = [(1, 0, 0, 1), (-1, 0, 0, 1), (1, 0, 0, -1), (-1, 0, 0, -1), (0, 1, 1, 0), (0, -1, 1, 0), (0, 1, -1, 0), (0, -1, -1, 0)]
+
+
+def hyper_script(sc):
+    L = ['R 1 %s %s %s 1' % (repr(float(sc['pen'])), repr(float(sc['buf'])), repr(float(sc['nudge']))),
+         'O improveMoving %d' % (1 if sc['opt'] == 1 else 0), 'O improveAddDel %d' % (1 if sc['opt'] == 2 else 0)]
+    for i, P in enumerate(sc['shapes']):
+        L.append('A %d %s' % (i + 1, fmt_poly(P)))
+    j = sc['junction']
+    L.append('J 50 %d %d %d' % (j[0], j[1], sc['fixed']))
+    for i, t in enumerate(sc['terms']):
+        if sc['rev'][i]:
+            L.append('H %d P %d %d J 50' % (100 + i, t[0], t[1]))
+        else:
+            L.append('H %d J 50 P %d %d' % (100 + i, t[0], t[1]))
+    L += ['P', 'X']
+    return L
+
+
+def _sym_apply(sym, off, p):
+    a, b, c, d = sym
+    return (a * p[0] + b * p[1] + off[0], c * p[0] + d * p[1] + off[1])
+
+
+def _sym_box(sym, off, b):
+    p, q = _sym_apply(sym, off, (b[0], b[1])), _sym_apply(sym, off, (b[2], b[3]))
+    return (min(p[0], q[0]), min(p[1], q[1]), max(p[0], q[0]), max(p[1], q[1]))
+
+
+def hyper_scene_valid(boxes, j, terms, margin):
+    pts = [j] + list(terms)
+    if len(set(pts)) != len(pts):
+        return False
+    for i in range(len(boxes)):
+        if boxes[i][2] - boxes[i][0] < 10 or boxes[i][3] - boxes[i][1] < 10:
+            return False
+        for k in range(i + 1, len(boxes)):
+            if not box_sep(boxes[i], boxes[k], 10):
+                return False
+    for p in pts:
+        for b in boxes:
+            if b[0] - margin <= p[0] <= b[2] + margin and b[1] - margin <= p[1] <= b[3] + margin:
+                return False
+    return True
+
+
+def gen_hyper_scene(rng, kind=None):
+    """kind 'corridor': one branch has to squeeze between two obstacles next to the column / row of its terminal while most
+    other branches pull the trunk the same way (trunk segments that become collinear and merge during the improvement);
+    kind 'random': junction in the middle, terminals and obstacles at random (multiples of 5)."""
+    kind = kind or ('corridor' if rng.chance(1, 2) else 'random')
+    opt = rng.choice([0, 1, 1, 1, 2, 2])
+    pen = rng.choice([10, 50, 50])
+    nudge = rng.choice([0, 0, 4])
+    buf = rng.choice([0, 0, 0, 4])
+    margin = 6 + buf
+    for _ in range(200):
+        if kind == 'corridor':
+            g = 5
+            j = (0, 0)
+            # the "behind the obstacle" terminal: up-left of the junction
+            tx = -g * rng.range(8, 30); ty = -g * rng.range(24, 50)
+            xw = g * rng.range(4, 8)                         # half width of X
+            X = (tx - xw, ty + g * rng.range(2, 6), tx + g * rng.range(2, 8), 0)
+            X = (X[0], X[1], X[2], X[1] + g * rng.range(6, 16))
+            if X[3] > -g * 6:
+                continue
+            gapw = g * rng.range(3, 9)                       # corridor between X and W
+            W = (X[2] + gapw, ty - g * rng.range(2, 8), 0, 0)
+            W = (W[0], W[1], max(W[0] + 20, g * rng.range(2, 12)), ty + g * rng.range(6, 14))
+            boxes = [X, W]
+            terms = [(tx, ty)]
+            # branches that pull the trunk towards the terminal's column: far away on the same side, beyond the junction's row
+            for _k in range(rng.range(2, 3)):
+                terms.append((tx - g * rng.range(10, 40), g * rng.range(8, 40)))
+            # 0-1 branch on the other side
+            if rng.chance(3, 4):
+                terms.append((g * rng.range(8, 20), g * rng.range(-2, 2) if rng.chance(1, 2) else 0))
+            for _k in range(rng.range(0, 1)):
+                bx = g * rng.range(-60, 40); by = g * rng.range(-60, 60)
+                boxes.append((bx, by, bx + g * rng.range(4, 14), by + g * rng.range(4, 14)))
+        else:
+            g = 5
+            j = (0, 0)
+            nt = rng.range(3, 5)
+            terms = []
+            for _k in range(nt):
+                terms.append((g * rng.range(-50, 50), g * rng.range(-50, 50)))
+            boxes = []
+            for _k in range(rng.range(1, 4)):
+                if rng.chance(1, 2) and terms:
+                    # near the straight leg between the junction and a terminal
+                    t = rng.choice(terms); f = rng.range(2, 8)
+                    cx, cy = t[0] * f // 10 + g * rng.range(-6, 6), t[1] * f // 10 + g * rng.range(-6, 6)
+                else:
+                    cx, cy = g * rng.range(-45, 45), g * rng.range(-45, 45)
+                w, h = g * rng.range(2, 10), g * rng.range(2, 10)
+                boxes.append((cx - w, cy - h, cx + w, cy + h))
+        sym = rng.choice(SYMS)
+        off = (200 + 5 * rng.range(-4, 4), 200 + 5 * rng.range(-4, 4))
+        boxes = [_sym_box(sym, off, b) for b in boxes]
+        j2 = _sym_apply(sym, off, j)
+        terms = [_sym_apply(sym, off, t) for t in terms]
+        if not hyper_scene_valid(boxes, j2, terms, margin):
+            continue
+        # a fixed junction is an obstacle of the orthogonal sweep whose rectangle has half-width min(1, idealNudgingDistance): with
+        # idealNudgingDistance 0 it is empty and the sweep asserts (begin < finish, orthogonal.cpp:672) - outside this family
+        fixed = 1 if nudge > 0 and rng.chance(1, 4) else 0
+        return {'kind': kind, 'shapes': [rect_poly(b) for b in boxes], 'junction': j2, 'fixed': fixed,
+                'terms': terms, 'rev': [1 if rng.chance(1, 4) else 0 for _ in terms], 'opt': opt, 'pen': pen, 'buf': buf, 'nudge': nudge}
+    return None
